@@ -179,6 +179,33 @@ def main(tier, seed):
         for what, text, props in r['fails'][:3]:
             ctx.fail(what, {'op': 'props', 'text': text, 'props': props})
         texts += r['texts']
+    # objects built through the public classes: a property added to ONE table / column is stored on that one and shows in that
+    # one's rendering only - however the objects were constructed (no properties argument, None, an own dict)
+    from pydbml.classes import Column, Table
+    from pydbml.database import Database
+    for how in ('no argument', 'None', 'own dict each', 'parsed'):
+        mk = {'no argument': lambda: {}, 'None': lambda: {'properties': None}, 'own dict each': lambda: {'properties': {}}}.get(how)
+        if how == 'parsed':
+            db = PyDBML("Table a {\n  x int\n  y int\n}\nTable b {\n  x int\n}\n", allow_properties=True)
+            ta, tb = db.tables
+            ca, cb, cc = ta.columns[0], ta.columns[1], tb.columns[0]
+        else:
+            db = Database(allow_properties=True)
+            ta, tb = Table('a', **mk()), Table('b', **mk())
+            ca, cb, cc = Column('x', 'int', **mk()), Column('y', 'int', **mk()), Column('x', 'int', **mk())
+            ta.add_column(ca); ta.add_column(cb); tb.add_column(cc)     # noqa: E702
+            db.add(ta); db.add(tb)                                       # noqa: E702
+        ta.properties['owner'] = 'team a'
+        ca.properties['unit'] = 'cm'
+        ctx.case(core.h(['in-place property', how]), True, sample={'objects_built_with': how, 'b.properties': dict(tb.properties)})
+        leaked = [n for n, o in (('table b', tb), ('column a.y', cb), ('column b.x', cc)) if o.properties]
+        wrong = (dict(ta.properties) != {'owner': 'team a'} or dict(ca.properties) != {'unit': 'cm'}
+                 or "owner: 'team a'" in tb.dbml or "unit: 'cm'" in cb.dbml or "unit: 'cm'" in cc.dbml
+                 or db.dbml.count("owner: 'team a'") != 1 or db.dbml.count("unit: 'cm'") != 1)
+        fresh_t, fresh_c = Table('fresh'), Column('fresh', 'int')
+        if leaked or wrong or fresh_t.properties or fresh_c.properties:
+            ctx.fail(f'a property added to one table and one column (objects built with: {how}) is not stored on exactly those: '
+                     f'also on {leaked or "a newly constructed object / the rendering of another"}', {'op': 'in-place-property', 'how': how})
     if drv is not None:
         ms = drv.ask_many({'op': 'parse', 'text': t, 'allow_properties': p} for t, p, _ in texts)
         for (t, p, i), m in zip(texts, ms):
